@@ -121,7 +121,7 @@ pub open spec fn with_mod(rendered: Seq<char>, k: Seq<char>, q: Seq<char>) -> Se
 pub open spec fn render_spec(kind: Seq<char>, rendered: Seq<char>, unprintable: bool, optional: bool, multiline: bool, mod_end: bool) -> Seq<char> {
     let q = quant_of(optional, multiline);
     if kind == equal_word() {
-        if unprintable { with_mod(rendered, escaped_word(), q) }
+        if unprintable { with_mod(protect(rendered), escaped_word(), q) }
         else if q.len() == 0 { if mod_end { with_mod(rendered, equal_word(), q) } else { rendered } }
         else { with_mod(rendered, Seq::empty(), q) }
     } else { with_mod(rendered, kind, q) }
@@ -137,6 +137,8 @@ pub proof fn lemma_with_mod_parts(reg: OpaqueRegistry, rendered: Seq<char>, k: S
     assert(mod_split(l, rendered, k, q));
     lemma_line_parts(reg, l, rendered, k, q);
 }
+/// the expression as it is written: an escaped rendering never ends in ` (no-eol)` (see `protect`)
+pub open spec fn written_expr(kind: Seq<char>, rendered: Seq<char>, unprintable: bool) -> Seq<char> { if kind == equal_word() && unprintable { protect(rendered) } else { rendered } }
 /// the kind under which a rule is written
 pub open spec fn written_kind(kind: Seq<char>, unprintable: bool) -> Seq<char> { if kind == equal_word() && unprintable { escaped_word() } else { kind } }
 pub open spec fn is_bare(kind: Seq<char>, unprintable: bool, optional: bool, multiline: bool) -> bool {
@@ -146,11 +148,11 @@ pub open spec fn is_bare(kind: Seq<char>, unprintable: bool, optional: bool, mul
 pub open spec fn reg_knows(reg: OpaqueRegistry, kind: Seq<char>) -> bool { reg_wf(reg) && reg_is_kind(reg, kind) && reg_is_kind(reg, escaped_word()) && reg_is_kind(reg, equal_word()) }
 pub proof fn lemma_render_marked(reg: OpaqueRegistry, kind: Seq<char>, rendered: Seq<char>, unp: bool, opt: bool, multi: bool, me: bool)
     requires reg_knows(reg, kind), !is_bare(kind, unp, opt, multi),
-    ensures line_parts(reg, render_spec(kind, rendered, unp, opt, multi, me)) == (rendered, written_kind(kind, unp), quant_of(opt, multi)),
+    ensures line_parts(reg, render_spec(kind, rendered, unp, opt, multi, me)) == (written_expr(kind, rendered, unp), written_kind(kind, unp), quant_of(opt, multi)),
 {
     let q = quant_of(opt, multi);
     if kind == equal_word() {
-        if unp { lemma_with_mod_parts(reg, rendered, escaped_word(), q); } else { lemma_with_mod_parts(reg, rendered, Seq::empty(), q); }
+        if unp { lemma_with_mod_parts(reg, protect(rendered), escaped_word(), q); } else { lemma_with_mod_parts(reg, rendered, Seq::empty(), q); }
     } else { lemma_with_mod_parts(reg, rendered, kind, q); }
 }
 /// a bare `equal` line reads back as the whole line when the choice between bare and ` (equal)` is made by has_proper_mod
@@ -168,12 +170,12 @@ pub proof fn lemma_quant_roundtrip(optional: bool, multiline: bool)
     assert(star().len() == 1 && qmark().len() == 1 && plus().len() == 1 && Seq::<char>::empty().len() == 0);
 }
 /// C08, last sentence, over the two contracts (C08.render.form and C08.parse.quantifier / C08.parse.rule): the canonical rendering of
-/// an expectation reads back -- with the default registry -- as the same expression text under the written kind, and its quantifier
+/// an expectation reads back -- with the default registry -- as the written expression text (the rendering; an escaped one with a final ` (no-eol)` protected) under the written kind, and its quantifier
 /// decodes to the same optional / multiline flags
 pub proof fn lemma_c08_roundtrip(kind: Seq<char>, rendered: Seq<char>, unp: bool, opt: bool, multi: bool)
     requires reg_knows(dreg(), kind),
     ensures ({ let p = line_parts(dreg(), render_spec(kind, rendered, unp, opt, multi, has_proper_mod(dreg(), rendered)));
-        p.0 == rendered && p.1 == written_kind(kind, unp) && (p.2 == star() || p.2 == qmark()) == opt && (p.2 == star() || p.2 == plus()) == multi }),
+        p.0 == written_expr(kind, rendered, unp) && p.1 == written_kind(kind, unp) && (p.2 == star() || p.2 == qmark()) == opt && (p.2 == star() || p.2 == plus()) == multi }),
 {
     lemma_quant_roundtrip(opt, multi);
     if is_bare(kind, unp, opt, multi) { lemma_render_bare(dreg(), rendered); }
